@@ -374,6 +374,453 @@ def pipeline_define : List (String × List String) := [
   (".Commit()", [])
 ]
 
+/-- cmd/gts/delete.go `init` -/
+def fn_delete_init : List Line := [
+  (0, "func", "()"),   -- `init`
+  (1, "call", "flags.Register(\"delete\", \"delete a region of the given sequence(s)\", deleteFunc)")   -- which command name runs which function (`registered`)
+]
+
+/-- `gts delete <locator> [-e]` — per record the located regions are deleted (`-e`: erased) from the back (C15 `Cli.delete`) -/
+def fn_delete_deleteFunc : List Line := [
+  (0, "func", "(a0 *flags.Context) error"),   -- the command function
+  (1, "assign", "v0 := newHash()"),   -- frame: the digest `TryCache` hashes the input and the payload with (C14)
+  (1, "assign", "v1, v2 := flags.Flags()"),   -- frame: the positional / optional argument sets (option table: Spec/CliTable.lean)
+  (1, "assign", "v3 := v1.String(\"locator\", \"a locator string ([modifier|selector|point|range][@modifier])\")"),   -- positional: the locator string (C08 `AsLocator`)
+  (1, "assign", "v4 := new(string)"),   -- frame: the primary input path …
+  (1, "assign", "*v4 = \"-\""),   -- frame: … is `-` (stdin) …
+  (1, "if", "cmd.IsTerminal(os.Stdin.Fd())"),   -- frame: … unless stdin is a terminal:
+  (2, "assign", "v4 = v1.String(\"seqin\", \"input sequence file (may be omitted if standard input is provided)\")"),   -- frame: then a positional `seqin` is declared
+  (1, "assign", "v5 := v2.Switch(0, \"no-cache\", \"do not use or create cache\")"),   -- frame: `--no-cache` (C14 `Run.nocache`)
+  (1, "assign", "v6 := v2.String('F', \"format\", \"\", \"output file format (defaults to same as input)\")"),   -- frame: `-F` (C17 `cli_writers`: overrides the detected file type)
+  (1, "assign", "v7 := v2.String('o', \"output\", \"-\", \"output sequence file (specifying `-` will force standard output)\")"),   -- frame: `-o` (C14 `Run.toFile`; C17 `cli_writers`: the file type is detected from it)
+  (1, "assign", "v8 := v2.Switch('e', \"erase\", \"remove features contained in the deleted regions\")"),   -- `-e`
+  (1, "if", "v9 := a0.Parse(v1, v2); v9 != nil"),   -- frame: the command line is parsed; a usage error …
+  (2, "return", "v9"),   -- … is returned as it is
+  (1, "assign", "v10, v11 := gts.AsLocator(*v3)"),   -- `gts.AsLocator` (C08 `asLocator_eq`): a parameter `locate` of the regenerated step; an invalid locator fails the command before the cache is touched
+  (1, "if", "v11 != nil"),   -- an error …
+  (2, "return", "a0.Raise(v11)"),   -- … ends the command with that error (no `Commit`)
+  (1, "assign", "v12, v11 := newIODelegate(*v4, *v7)"),   -- frame: the I/O delegate over (input path, output path) (C14 `CacheProto.step`: `newIODelegate`)
+  (1, "if", "v11 != nil"),   -- an error …
+  (2, "return", "a0.Raise(v11)"),   -- … ends the command with that error (no `Commit`)
+  (1, "defer", "v12.Close()"),   -- frame: `defer d.Close()` — finalises the cache entry, removes it unless committed (C14 `close_removes_unless_committed`)
+  (1, "assign", "v13 := seqio.Detect(*v7)"),   -- frame: output file type from the `-o` path (C17 `cli_writers`)
+  (1, "if", "*v6 != \"\""),   -- frame: `-F` given:
+  (2, "assign", "v13 = seqio.ToFileType(*v6)"),   -- frame: … the file type is the named format (C17 `cli_writers`)
+  (1, "assign", "v14 := gts.Delete"),   -- the edit function (a parameter of the regenerated step) …
+  (1, "if", "*v8"),   -- … with `-e`:
+  (2, "assign", "v14 = gts.Erase"),   -- … `Erase` / `Embed`
+  (1, "if", "!*v5"),   -- frame: unless `--no-cache`:
+  (2, "assign", "v15 := encodePayload([]tuple{{\"command\", strings.Join(a0.Name, \"-\")}, {\"version\", gts.Version.String()}, {\"locator\", *v3}, {\"erase\", *v8}, {\"filetype\", v13}})"),   -- the cache key: command name, version and EVERY option that changes the output (C14 `payload_complete`, Spec/CliTable.lean)
+  (2, "assign", "v16, v17 := v12.TryCache(v0, v15)"),   -- frame: C14 `CacheProto.step`: hit → the entry is copied to the output; miss → the tee is armed
+  (2, "if", "v16 || v17 != nil"),   -- frame: a hit (or an I/O error) …
+  (3, "return", "a0.Raise(v17)"),   -- … ends the command: `Raise(nil)` is nil for a hit (the entry was replayed), the error otherwise
+  (1, "assign", "v18 := seqio.NewAutoScanner(v12)"),   -- READER: the records of the primary input, format detected per stream (C17 `Auto.scanAll`, C07 / C01 the GenBank reader)
+  (1, "assign", "v19 := bufio.NewWriter(v12)"),   -- WRITER: buffered, onto the delegate (tee: output and cache entry)
+  (1, "assign", "v20 := seqio.NewWriter(v19, v13)"),   -- WRITER: `seqio.NewWriter(buffer, filetype)` (C17 `cli_writers`; C01 `GenBank.write`, C17 `Fasta` writer)
+  (1, "for", "v18.Scan()"),   -- PER RECORD, in input order:
+  (2, "assign", "v21 := v18.Value()"),   -- the record
+  (2, "assign", "v22 := gts.Minimize(v10(v21))"),   -- per-record step — regenerated as a function (Gen/CliDelete.lean) and proved equal to the model (Bridge/CliDelete.lean, C15)
+  (2, "call", "flip.Flip(gts.BySegment(v22))"),   -- per-record step — regenerated as a function (Gen/CliDelete.lean) and proved equal to the model (Bridge/CliDelete.lean, C15)
+  (2, "range", "_, v23 := range v22"),   -- per-record step — regenerated as a function (Gen/CliDelete.lean) and proved equal to the model (Bridge/CliDelete.lean, C15)
+  (3, "assign", "v24, v25 := v23.Head(), v23.Len()"),   -- per-record step — regenerated as a function (Gen/CliDelete.lean) and proved equal to the model (Bridge/CliDelete.lean, C15)
+  (3, "assign", "v21 = v14(v21, v24, v25)"),   -- per-record step — regenerated as a function (Gen/CliDelete.lean) and proved equal to the model (Bridge/CliDelete.lean, C15)
+  (2, "if", "_, v26 := v20.WriteSeq(v21); v26 != nil"),   -- WRITE the record; a write error …
+  (3, "return", "a0.Raise(v26)"),   -- … ends the command with that error (no `Commit`)
+  (2, "if", "v27 := v19.Flush(); v27 != nil"),   -- flush (the bytes reach the tee); an error …
+  (3, "return", "a0.Raise(v27)"),   -- … ends the command with that error (no `Commit`)
+  (1, "if", "v28 := v18.Err(); v28 != nil"),   -- a scan error (a malformed record: C07) after the records in front of it were handled …
+  (2, "return", "a0.Raise(fmt.Errorf(\"encountered error in scanner: %v\", v28))"),   -- … fails the command (exit 1, no `Commit`: the cache entry is removed)
+  (1, "call", "v12.Commit()"),   -- frame: LAST statement in front of `return nil`: the run is committed (C14 `commit_only_sets_flag`, `commit_last`)
+  (1, "return", "nil")   -- success
+]
+
+/-- cmd/gts/delete.go: every function, method and function literal, in source order -/
+def file_delete : List (String × List Line) := [
+  ("init", fn_delete_init),
+  ("deleteFunc", fn_delete_deleteFunc)
+]
+
+/-- cmd/gts/delete.go: its top-level declarations in source order -/
+def decls_delete : List String := ["init", "deleteFunc"]
+
+/-- cmd/gts/delete.go: the types it declares (a struct field by field / another type as `= T`) -/
+def types_delete : List (String × List String) := []
+
+/-- the library pipeline of `delete` (what it is: Gts/Gen/CmdFacts.lean) -/
+def pipeline_delete : List (String × List String) := [
+  ("gts.AsLocator()", []),
+  ("seqio.Detect()", []),
+  ("seqio.ToFileType()", ["if"]),
+  ("gts.Delete", []),
+  ("gts.Erase", ["if"]),
+  (".TryCache()", ["if"]),
+  ("seqio.NewAutoScanner()", []),
+  ("seqio.NewWriter()", []),
+  (".Scan()", ["for:"]),
+  (".Value()", ["for"]),
+  ("gts.Minimize()", ["for"]),
+  ("gts.BySegment()", ["for"]),
+  (".Head()", ["for", "range"]),
+  (".Len()", ["for", "range"]),
+  (".WriteSeq()", ["for", "if:"]),
+  (".Flush()", ["for", "if:"]),
+  (".Err()", ["if:"]),
+  (".Commit()", [])
+]
+
+/-- cmd/gts/extract.go `init` -/
+def fn_extract_init : List Line := [
+  (0, "func", "()"),   -- `init`
+  (1, "call", "flags.Register(\"extract\", \"extract the sequences referenced by the features\", extractFunc)")   -- which command name runs which function (`registered`)
+]
+
+/-- cmd/gts/extract.go `containsRegion` -/
+def fn_extract_containsRegion : List Line := [
+  (0, "func", "(a0 []gts.Region, a1 gts.Region) bool"),   -- `containsRegion` (regenerated as a function: Gen/CliExtract.lean)
+  (1, "range", "v0 := range a0"),
+  (2, "if", "reflect.DeepEqual(a0[v0], a1)"),
+  (3, "return", "true"),
+  (1, "return", "false")
+]
+
+/-- `gts extract [-v] [locator…]` — per record one record per located region (C15 `Cli.extract`) -/
+def fn_extract_extractFunc : List Line := [
+  (0, "func", "(a0 *flags.Context) error"),   -- the command function
+  (1, "assign", "v0 := newHash()"),   -- frame: the digest `TryCache` hashes the input and the payload with (C14)
+  (1, "assign", "v1, v2 := flags.Flags()"),   -- frame: the positional / optional argument sets (option table: Spec/CliTable.lean)
+  (1, "assign", "v3 := v1.Extra(\"locator\", \"a locator string ([specifier][@modifier])\")"),   -- positional, any number: the locator strings
+  (1, "assign", "v4 := new(string)"),   -- frame: the primary input path …
+  (1, "assign", "*v4 = \"-\""),   -- frame: … is `-` (stdin) …
+  (1, "if", "cmd.IsTerminal(os.Stdin.Fd())"),   -- frame: … unless stdin is a terminal:
+  (2, "assign", "v4 = v1.String(\"seqin\", \"input sequence file (may be omitted if standard input is provided)\")"),   -- frame: then a positional `seqin` is declared
+  (1, "assign", "v5 := v2.Switch(0, \"no-cache\", \"do not use or create cache\")"),   -- frame: `--no-cache` (C14 `Run.nocache`)
+  (1, "assign", "v6 := v2.String('F', \"format\", \"\", \"output file format (defaults to same as input)\")"),   -- frame: `-F` (C17 `cli_writers`: overrides the detected file type)
+  (1, "assign", "v7 := v2.String('o', \"output\", \"-\", \"output sequence file (specifying `-` will force standard output)\")"),   -- frame: `-o` (C14 `Run.toFile`; C17 `cli_writers`: the file type is detected from it)
+  (1, "assign", "v8 := v2.Switch('v', \"invert-region\", \"extract the sequences that are not referenced by the features\")"),   -- `-v` (in the cache key since 4f58328)
+  (1, "if", "v9 := a0.Parse(v1, v2); v9 != nil"),   -- frame: the command line is parsed; a usage error …
+  (2, "return", "v9"),   -- … is returned as it is
+  (1, "assign", "v10, v11 := newIODelegate(*v4, *v7)"),   -- frame: the I/O delegate over (input path, output path) (C14 `CacheProto.step`: `newIODelegate`)
+  (1, "if", "v11 != nil"),   -- an error …
+  (2, "return", "a0.Raise(v11)"),   -- … ends the command with that error (no `Commit`)
+  (1, "defer", "v10.Close()"),   -- frame: `defer d.Close()` — finalises the cache entry, removes it unless committed (C14 `close_removes_unless_committed`)
+  (1, "assign", "v12 := seqio.Detect(*v7)"),   -- frame: output file type from the `-o` path (C17 `cli_writers`)
+  (1, "if", "*v6 != \"\""),   -- frame: `-F` given:
+  (2, "assign", "v12 = seqio.ToFileType(*v6)"),   -- frame: … the file type is the named format (C17 `cli_writers`)
+  (1, "if", "len(*v3) == 0"),   -- no locator given:
+  (2, "assign", "*v3 = append(*v3, \"@^..$\")"),   -- … the whole record (`@^..$`)
+  (1, "assign", "v13 := make([]gts.Locator, len(*v3))"),   -- one locator per argument (a parameter list of the regenerated step)
+  (1, "range", "v14, v15 := range *v3"),
+  (2, "assign", "v16, v17 := gts.AsLocator(v15)"),   -- `gts.AsLocator` (C08 `asLocator_eq`): a parameter `locate` of the regenerated step; an invalid locator fails the command before the cache is touched
+  (2, "if", "v17 != nil"),   -- an error …
+  (3, "return", "a0.Raise(v17)"),   -- … ends the command with that error (no `Commit`)
+  (2, "assign", "v13[v14] = v16"),
+  (1, "if", "!*v5"),   -- frame: unless `--no-cache`:
+  (2, "assign", "v18 := encodePayload([]tuple{{\"command\", strings.Join(a0.Name, \"-\")}, {\"version\", gts.Version.String()}, {\"locators\", *v3}, {\"invert\", *v8}, {\"filetype\", v12}})"),   -- the cache key: command name, version and EVERY option that changes the output (C14 `payload_complete`, Spec/CliTable.lean)
+  (2, "assign", "v19, v20 := v10.TryCache(v0, v18)"),   -- frame: C14 `CacheProto.step`: hit → the entry is copied to the output; miss → the tee is armed
+  (2, "if", "v19 || v20 != nil"),   -- frame: a hit (or an I/O error) …
+  (3, "return", "a0.Raise(v20)"),   -- … ends the command: `Raise(nil)` is nil for a hit (the entry was replayed), the error otherwise
+  (1, "assign", "v21 := seqio.NewAutoScanner(v10)"),   -- READER: the records of the primary input, format detected per stream (C17 `Auto.scanAll`, C07 / C01 the GenBank reader)
+  (1, "assign", "v22 := bufio.NewWriter(v10)"),   -- WRITER: buffered, onto the delegate (tee: output and cache entry)
+  (1, "assign", "v23 := seqio.NewWriter(v22, v12)"),   -- WRITER: `seqio.NewWriter(buffer, filetype)` (C17 `cli_writers`; C01 `GenBank.write`, C17 `Fasta` writer)
+  (1, "for", "v21.Scan()"),   -- PER RECORD, in input order:
+  (2, "assign", "v24 := v21.Value()"),   -- the record
+  (2, "assign", "v25 := make([]gts.Region, 0)"),   -- per-record step — regenerated as a function (Gen/CliExtract.lean) and proved equal to the model (Bridge/CliExtract.lean, C15)
+  (2, "range", "_, v26 := range v13"),   -- per-record step — regenerated as a function (Gen/CliExtract.lean) and proved equal to the model (Bridge/CliExtract.lean, C15)
+  (3, "range", "_, v27 := range v26(v24)"),   -- per-record step — regenerated as a function (Gen/CliExtract.lean) and proved equal to the model (Bridge/CliExtract.lean, C15)
+  (4, "if", "!containsRegion(v25, v27)"),   -- per-record step — regenerated as a function (Gen/CliExtract.lean) and proved equal to the model (Bridge/CliExtract.lean, C15)
+  (5, "assign", "v25 = append(v25, v27)"),   -- … in input order
+  (2, "if", "*v8"),   -- … with `-e`:
+  (3, "assign", "v25 = gts.InvertLinear(gts.Regions(v25), gts.Len(v24))"),   -- per-record step — regenerated as a function (Gen/CliExtract.lean) and proved equal to the model (Bridge/CliExtract.lean, C15)
+  (2, "range", "_, v28 := range v25"),   -- per-record step — regenerated as a function (Gen/CliExtract.lean) and proved equal to the model (Bridge/CliExtract.lean, C15)
+  (3, "if", "len(v25) == 1 || v28.Len() != gts.Len(v24)"),   -- per-record step — regenerated as a function (Gen/CliExtract.lean) and proved equal to the model (Bridge/CliExtract.lean, C15)
+  (4, "assign", "v29 := v28.Locate(v24)"),   -- per-record step — regenerated as a function (Gen/CliExtract.lean) and proved equal to the model (Bridge/CliExtract.lean, C15)
+  (4, "if", "_, v30 := v23.WriteSeq(v29); v30 != nil"),   -- WRITE the record; a write error …
+  (5, "return", "a0.Raise(v30)"),   -- … ends the command with that error (no `Commit`)
+  (4, "if", "v31 := v22.Flush(); v31 != nil"),   -- flush (the bytes reach the tee); an error …
+  (5, "return", "a0.Raise(v31)"),   -- … ends the command with that error (no `Commit`)
+  (1, "if", "v32 := v21.Err(); v32 != nil"),   -- a scan error (a malformed record: C07) after the records in front of it were handled …
+  (2, "return", "a0.Raise(fmt.Errorf(\"encountered error in scanner: %v\", v32))"),   -- … fails the command (exit 1, no `Commit`: the cache entry is removed)
+  (1, "call", "v10.Commit()"),   -- frame: LAST statement in front of `return nil`: the run is committed (C14 `commit_only_sets_flag`, `commit_last`)
+  (1, "return", "nil")   -- success
+]
+
+/-- cmd/gts/extract.go: every function, method and function literal, in source order -/
+def file_extract : List (String × List Line) := [
+  ("init", fn_extract_init),
+  ("containsRegion", fn_extract_containsRegion),
+  ("extractFunc", fn_extract_extractFunc)
+]
+
+/-- cmd/gts/extract.go: its top-level declarations in source order -/
+def decls_extract : List String := ["init", "containsRegion", "extractFunc"]
+
+/-- cmd/gts/extract.go: the types it declares (a struct field by field / another type as `= T`) -/
+def types_extract : List (String × List String) := []
+
+/-- the library pipeline of `extract` (what it is: Gts/Gen/CmdFacts.lean) -/
+def pipeline_extract : List (String × List String) := [
+  ("seqio.Detect()", []),
+  ("seqio.ToFileType()", ["if"]),
+  ("gts.Locator", []),
+  ("gts.AsLocator()", ["range"]),
+  (".TryCache()", ["if"]),
+  ("seqio.NewAutoScanner()", []),
+  ("seqio.NewWriter()", []),
+  (".Scan()", ["for:"]),
+  (".Value()", ["for"]),
+  ("gts.Region", ["for"]),
+  ("gts.InvertLinear()", ["for", "if"]),
+  ("gts.Regions()", ["for", "if"]),
+  ("gts.Len()", ["for", "if"]),
+  (".Len()", ["for", "range", "if:"]),
+  ("gts.Len()", ["for", "range", "if:"]),
+  (".Locate()", ["for", "range", "if"]),
+  (".WriteSeq()", ["for", "range", "if", "if:"]),
+  (".Flush()", ["for", "range", "if", "if:"]),
+  (".Err()", ["if:"]),
+  (".Commit()", [])
+]
+
+/-- cmd/gts/infix.go `init` -/
+def fn_infix_init : List Line := [
+  (0, "func", "()"),   -- `init`
+  (1, "call", "flags.Register(\"infix\", \"infix input sequence(s) into the host sequence(s)\", infixFunc)")   -- which command name runs which function (`registered`)
+]
+
+/-- `gts infix <locator> <host> [-e]` — every record is a GUEST, inserted into every host at the located sites (C15 `Cli.insert`) -/
+def fn_infix_infixFunc : List Line := [
+  (0, "func", "(a0 *flags.Context) error"),   -- the command function
+  (1, "assign", "v0 := newHash()"),   -- frame: the digest `TryCache` hashes the input and the payload with (C14)
+  (1, "assign", "v1, v2 := flags.Flags()"),   -- frame: the positional / optional argument sets (option table: Spec/CliTable.lean)
+  (1, "assign", "v3 := v1.String(\"locator\", \"a locator string ([modifier|selector|point|range][@modifier])\")"),   -- positional: the locator string (C08 `AsLocator`)
+  (1, "assign", "v4 := v1.String(\"host\", \"host sequence\")"),   -- positional: the host sequence file
+  (1, "assign", "v5 := new(string)"),   -- frame: the primary input path …
+  (1, "assign", "*v5 = \"-\""),   -- frame: … is `-` (stdin) …
+  (1, "if", "cmd.IsTerminal(os.Stdin.Fd())"),   -- frame: … unless stdin is a terminal:
+  (2, "assign", "v5 = v1.String(\"guest\", \"input sequence file (may be omitted if standard input is provided)\")"),
+  (1, "assign", "v6 := v2.Switch(0, \"no-cache\", \"do not use or create cache\")"),   -- frame: `--no-cache` (C14 `Run.nocache`)
+  (1, "assign", "v7 := v2.String('F', \"format\", \"\", \"output file format (defaults to same as input)\")"),   -- frame: `-F` (C17 `cli_writers`: overrides the detected file type)
+  (1, "assign", "v8 := v2.String('o', \"output\", \"-\", \"output sequence file (specifying `-` will force standard output)\")"),   -- frame: `-o` (C14 `Run.toFile`; C17 `cli_writers`: the file type is detected from it)
+  (1, "assign", "v9 := v2.Switch('e', \"embed\", \"extend existing feature locations when inserting instead of splitting them\")"),   -- `-e`
+  (1, "if", "v10 := a0.Parse(v1, v2); v10 != nil"),   -- frame: the command line is parsed; a usage error …
+  (2, "return", "v10"),   -- … is returned as it is
+  (1, "assign", "v11, v12 := gts.AsLocator(*v3)"),   -- `gts.AsLocator` (C08 `asLocator_eq`): a parameter `locate` of the regenerated step; an invalid locator fails the command before the cache is touched
+  (1, "if", "v12 != nil"),   -- an error …
+  (2, "return", "a0.Raise(v12)"),   -- … ends the command with that error (no `Commit`)
+  (1, "assign", "v13 := []gts.Sequence{}"),   -- all records are collected first:
+  (1, "assign", "v14, v12 := os.Open(*v4)"),
+  (1, "if", "v12 != nil"),   -- an error …
+  (2, "return", "a0.Raise(fmt.Errorf(\"failed to open file: %q: %v\", *v4, v12))"),   -- … or the command fails
+  (1, "defer", "v14.Close()"),   -- frame: `defer d.Close()` — finalises the cache entry, removes it unless committed (C14 `close_removes_unless_committed`)
+  (1, "call", "v0.Reset()"),   -- the digest of the SECONDARY input (C14 `secondary_digest_raw`)
+  (1, "assign", "v15 := attach(v0, v14)"),   -- … a file: read through the digest
+  (1, "assign", "v16 := seqio.NewAutoScanner(v15)"),   -- READER: the records of the primary input, format detected per stream (C17 `Auto.scanAll`, C07 / C01 the GenBank reader)
+  (1, "for", "v16.Scan()"),   -- PER RECORD, in input order:
+  (2, "assign", "v13 = append(v13, v16.Value())"),   -- per-record step — regenerated as a function (Gen/CliInsert.lean) and proved equal to the model (Bridge/CliInsert.lean, C15)
+  (1, "if", "len(v13) == 0"),
+  (2, "return", "a0.Raise(fmt.Errorf(\"host sequence file %q does not contain a sequence\", *v4))"),   -- … fails the command (repair 72a98e0: the error is RETURNED)
+  (1, "assign", "v17 := v0.Sum(nil)"),   -- its digest goes into the cache key
+  (1, "assign", "v18, v12 := newIODelegate(*v5, *v8)"),   -- frame: the I/O delegate over (input path, output path) (C14 `CacheProto.step`: `newIODelegate`)
+  (1, "if", "v12 != nil"),   -- an error …
+  (2, "return", "a0.Raise(v12)"),   -- … ends the command with that error (no `Commit`)
+  (1, "defer", "v18.Close()"),   -- frame: `defer d.Close()` — finalises the cache entry, removes it unless committed (C14 `close_removes_unless_committed`)
+  (1, "assign", "v19 := seqio.Detect(*v8)"),   -- frame: output file type from the `-o` path (C17 `cli_writers`)
+  (1, "if", "*v7 != \"\""),   -- frame: `-F` given:
+  (2, "assign", "v19 = seqio.ToFileType(*v7)"),   -- frame: … the file type is the named format (C17 `cli_writers`)
+  (1, "assign", "v20 := gts.Insert"),   -- the edit function (a parameter of the regenerated step) …
+  (1, "if", "*v9"),   -- … with `-e`:
+  (2, "assign", "v20 = gts.Embed"),   -- … `Erase` / `Embed`
+  (1, "if", "!*v6"),   -- frame: unless `--no-cache`:
+  (2, "assign", "v21 := encodePayload([]tuple{{\"command\", strings.Join(a0.Name, \"-\")}, {\"version\", gts.Version.String()}, {\"locator\", *v3}, {\"host\", v17}, {\"embed\", *v9}, {\"filetype\", v19}})"),   -- the cache key: command name, version and EVERY option that changes the output (C14 `payload_complete`, Spec/CliTable.lean)
+  (2, "assign", "v22, v23 := v18.TryCache(v0, v21)"),   -- frame: C14 `CacheProto.step`: hit → the entry is copied to the output; miss → the tee is armed
+  (2, "if", "v22 || v23 != nil"),   -- frame: a hit (or an I/O error) …
+  (3, "return", "a0.Raise(v23)"),   -- … ends the command: `Raise(nil)` is nil for a hit (the entry was replayed), the error otherwise
+  (1, "assign", "v16 = seqio.NewAutoScanner(v18)"),
+  (1, "assign", "v24 := bufio.NewWriter(v18)"),   -- WRITER: buffered, onto the delegate (tee: output and cache entry)
+  (1, "assign", "v25 := seqio.NewWriter(v24, v19)"),   -- WRITER: `seqio.NewWriter(buffer, filetype)` (C17 `cli_writers`; C01 `GenBank.write`, C17 `Fasta` writer)
+  (1, "for", "v16.Scan()"),   -- PER RECORD, in input order:
+  (2, "assign", "v26 := v16.Value()"),   -- the record
+  (2, "range", "_, v27 := range v13"),   -- per-record step — regenerated as a function (Gen/CliInsert.lean) and proved equal to the model (Bridge/CliInsert.lean, C15)
+  (3, "assign", "v28 := v11(v27)"),   -- per-record step — regenerated as a function (Gen/CliInsert.lean) and proved equal to the model (Bridge/CliInsert.lean, C15)
+  (3, "assign", "v29 := make([]int, len(v28))"),   -- per-record step — regenerated as a function (Gen/CliInsert.lean) and proved equal to the model (Bridge/CliInsert.lean, C15)
+  (3, "range", "v30, v31 := range v28"),   -- per-record step — regenerated as a function (Gen/CliInsert.lean) and proved equal to the model (Bridge/CliInsert.lean, C15)
+  (4, "assign", "v29[v30] = v31.Head()"),   -- per-record step — regenerated as a function (Gen/CliInsert.lean) and proved equal to the model (Bridge/CliInsert.lean, C15)
+  (3, "call", "sort.Sort(sort.Reverse(sort.IntSlice(v29)))"),   -- per-record step — regenerated as a function (Gen/CliInsert.lean) and proved equal to the model (Bridge/CliInsert.lean, C15)
+  (3, "assign", "v32 := gts.Sequence(gts.Copy(v27))"),   -- per-record step — regenerated as a function (Gen/CliInsert.lean) and proved equal to the model (Bridge/CliInsert.lean, C15)
+  (3, "range", "_, v33 := range v29"),   -- per-record step — regenerated as a function (Gen/CliInsert.lean) and proved equal to the model (Bridge/CliInsert.lean, C15)
+  (4, "assign", "v32 = v20(v32, v33, v26)"),   -- per-record step — regenerated as a function (Gen/CliInsert.lean) and proved equal to the model (Bridge/CliInsert.lean, C15)
+  (3, "if", "_, v34 := v25.WriteSeq(v32); v34 != nil"),   -- WRITE the record; a write error …
+  (4, "return", "a0.Raise(v34)"),   -- … ends the command with that error (no `Commit`)
+  (3, "if", "v35 := v24.Flush(); v35 != nil"),   -- flush (the bytes reach the tee); an error …
+  (4, "return", "a0.Raise(v35)"),   -- … ends the command with that error (no `Commit`)
+  (1, "if", "v36 := v16.Err(); v36 != nil"),   -- a scan error (a malformed record: C07) after the records in front of it were handled …
+  (2, "return", "a0.Raise(fmt.Errorf(\"encountered error in scanner: %v\", v36))"),   -- … fails the command (exit 1, no `Commit`: the cache entry is removed)
+  (1, "call", "v18.Commit()"),   -- frame: LAST statement in front of `return nil`: the run is committed (C14 `commit_only_sets_flag`, `commit_last`)
+  (1, "return", "nil")   -- success
+]
+
+/-- cmd/gts/infix.go: every function, method and function literal, in source order -/
+def file_infix : List (String × List Line) := [
+  ("init", fn_infix_init),
+  ("infixFunc", fn_infix_infixFunc)
+]
+
+/-- cmd/gts/infix.go: its top-level declarations in source order -/
+def decls_infix : List String := ["init", "infixFunc"]
+
+/-- cmd/gts/infix.go: the types it declares (a struct field by field / another type as `= T`) -/
+def types_infix : List (String × List String) := []
+
+/-- the library pipeline of `infix` (what it is: Gts/Gen/CmdFacts.lean) -/
+def pipeline_infix : List (String × List String) := [
+  ("gts.AsLocator()", []),
+  ("gts.Sequence", []),
+  ("seqio.NewAutoScanner()", []),
+  (".Scan()", ["for:"]),
+  (".Value()", ["for"]),
+  ("seqio.Detect()", []),
+  ("seqio.ToFileType()", ["if"]),
+  ("gts.Insert", []),
+  ("gts.Embed", ["if"]),
+  (".TryCache()", ["if"]),
+  ("seqio.NewAutoScanner()", []),
+  ("seqio.NewWriter()", []),
+  (".Scan()", ["for:"]),
+  (".Value()", ["for"]),
+  (".Head()", ["for", "range", "range"]),
+  (".Reverse()", ["for", "range"]),
+  ("gts.Sequence()", ["for", "range"]),
+  ("gts.Copy()", ["for", "range"]),
+  (".WriteSeq()", ["for", "range", "if:"]),
+  (".Flush()", ["for", "range", "if:"]),
+  (".Err()", ["if:"]),
+  (".Commit()", [])
+]
+
+/-- cmd/gts/insert.go `init` -/
+def fn_insert_init : List Line := [
+  (0, "func", "()"),   -- `init`
+  (1, "call", "flags.Register(\"insert\", \"insert guest sequence(s) into the input sequence(s)\", insertFunc)")   -- which command name runs which function (`registered`)
+]
+
+/-- `gts insert <locator> <guest> [-e]` — every guest is inserted into the record at the located sites (C15 `Cli.insert`) -/
+def fn_insert_insertFunc : List Line := [
+  (0, "func", "(a0 *flags.Context) error"),   -- the command function
+  (1, "assign", "v0 := newHash()"),   -- frame: the digest `TryCache` hashes the input and the payload with (C14)
+  (1, "assign", "v1, v2 := flags.Flags()"),   -- frame: the positional / optional argument sets (option table: Spec/CliTable.lean)
+  (1, "assign", "v3 := v1.String(\"locator\", \"a locator string ([specifier][@modifier])\")"),   -- positional: the locator string (C08 `AsLocator`)
+  (1, "assign", "v4 := v1.String(\"guest\", \"guest sequence file (will be interpreted literally if preceded with @)\")"),   -- positional: the guest — a file, or literal residues behind `@`
+  (1, "assign", "v5 := new(string)"),   -- frame: the primary input path …
+  (1, "assign", "*v5 = \"-\""),   -- frame: … is `-` (stdin) …
+  (1, "if", "cmd.IsTerminal(os.Stdin.Fd())"),   -- frame: … unless stdin is a terminal:
+  (2, "assign", "v5 = v1.String(\"host\", \"input sequence file (may be omitted if standard input is provided)\")"),
+  (1, "assign", "v6 := v2.Switch(0, \"no-cache\", \"do not use or create cache\")"),   -- frame: `--no-cache` (C14 `Run.nocache`)
+  (1, "assign", "v7 := v2.String('F', \"format\", \"\", \"output file format (defaults to same as input)\")"),   -- frame: `-F` (C17 `cli_writers`: overrides the detected file type)
+  (1, "assign", "v8 := v2.String('o', \"output\", \"-\", \"output sequence file (specifying `-` will force standard output)\")"),   -- frame: `-o` (C14 `Run.toFile`; C17 `cli_writers`: the file type is detected from it)
+  (1, "assign", "v9 := v2.Switch('e', \"embed\", \"extend existing feature locations when inserting instead of splitting them\")"),   -- `-e`
+  (1, "if", "v10 := a0.Parse(v1, v2); v10 != nil"),   -- frame: the command line is parsed; a usage error …
+  (2, "return", "v10"),   -- … is returned as it is
+  (1, "assign", "v11, v12 := gts.AsLocator(*v3)"),   -- `gts.AsLocator` (C08 `asLocator_eq`): a parameter `locate` of the regenerated step; an invalid locator fails the command before the cache is touched
+  (1, "if", "v12 != nil"),   -- an error …
+  (2, "return", "a0.Raise(v12)"),   -- … ends the command with that error (no `Commit`)
+  (1, "assign", "v13 := []gts.Sequence{}"),   -- all records are collected first:
+  (1, "assign", "v14 := []byte(*v4)"),
+  (1, "call", "v0.Reset()"),   -- the digest of the SECONDARY input (C14 `secondary_digest_raw`)
+  (1, "switch", "v14[0]"),
+  (2, "case", "'@'"),
+  (3, "call", "v0.Write(v14)"),   -- … a literal: the digest sees the argument with its `@`
+  (3, "assign", "v15 := gts.New(nil, nil, v14[1:])"),
+  (3, "assign", "v13 = append(v13, v15)"),   -- … in input order
+  (2, "default", ""),
+  (3, "assign", "v16, v17 := os.Open(*v4)"),
+  (3, "if", "v17 != nil"),   -- an error …
+  (4, "return", "a0.Raise(fmt.Errorf(\"failed to open file: %q: %v\", *v4, v17))"),   -- … or the command fails
+  (3, "defer", "v16.Close()"),   -- frame: `defer d.Close()` — finalises the cache entry, removes it unless committed (C14 `close_removes_unless_committed`)
+  (3, "assign", "v18 := attach(v0, v16)"),   -- … a file: read through the digest
+  (3, "assign", "v19 := seqio.NewAutoScanner(v18)"),   -- READER: the records of the primary input, format detected per stream (C17 `Auto.scanAll`, C07 / C01 the GenBank reader)
+  (3, "for", "v19.Scan()"),   -- PER RECORD, in input order:
+  (4, "assign", "v13 = append(v13, v19.Value())"),
+  (3, "if", "len(v13) == 0"),
+  (4, "return", "a0.Raise(fmt.Errorf(\"guest sequence file %q does not contain a sequence\", *v4))"),   -- … fails the command (repair 72a98e0: the error is RETURNED)
+  (1, "assign", "v20 := v0.Sum(nil)"),   -- its digest goes into the cache key
+  (1, "assign", "v21, v12 := newIODelegate(*v5, *v8)"),   -- frame: the I/O delegate over (input path, output path) (C14 `CacheProto.step`: `newIODelegate`)
+  (1, "if", "v12 != nil"),   -- an error …
+  (2, "return", "a0.Raise(v12)"),   -- … ends the command with that error (no `Commit`)
+  (1, "defer", "v21.Close()"),   -- frame: `defer d.Close()` — finalises the cache entry, removes it unless committed (C14 `close_removes_unless_committed`)
+  (1, "assign", "v22 := seqio.Detect(*v8)"),   -- frame: output file type from the `-o` path (C17 `cli_writers`)
+  (1, "if", "*v7 != \"\""),   -- frame: `-F` given:
+  (2, "assign", "v22 = seqio.ToFileType(*v7)"),   -- frame: … the file type is the named format (C17 `cli_writers`)
+  (1, "assign", "v23 := gts.Insert"),   -- the edit function (a parameter of the regenerated step) …
+  (1, "if", "*v9"),   -- … with `-e`:
+  (2, "assign", "v23 = gts.Embed"),   -- … `Erase` / `Embed`
+  (1, "if", "!*v6"),   -- frame: unless `--no-cache`:
+  (2, "assign", "v24 := encodePayload([]tuple{{\"command\", strings.Join(a0.Name, \"-\")}, {\"version\", gts.Version.String()}, {\"locator\", *v3}, {\"guest\", v20}, {\"embed\", *v9}, {\"filetype\", v22}})"),   -- the cache key: command name, version and EVERY option that changes the output (C14 `payload_complete`, Spec/CliTable.lean)
+  (2, "assign", "v25, v26 := v21.TryCache(v0, v24)"),   -- frame: C14 `CacheProto.step`: hit → the entry is copied to the output; miss → the tee is armed
+  (2, "if", "v25 || v26 != nil"),   -- frame: a hit (or an I/O error) …
+  (3, "return", "a0.Raise(v26)"),   -- … ends the command: `Raise(nil)` is nil for a hit (the entry was replayed), the error otherwise
+  (1, "assign", "v27 := seqio.NewAutoScanner(v21)"),   -- READER: the records of the primary input, format detected per stream (C17 `Auto.scanAll`, C07 / C01 the GenBank reader)
+  (1, "assign", "v28 := bufio.NewWriter(v21)"),   -- WRITER: buffered, onto the delegate (tee: output and cache entry)
+  (1, "assign", "v29 := seqio.NewWriter(v28, v22)"),   -- WRITER: `seqio.NewWriter(buffer, filetype)` (C17 `cli_writers`; C01 `GenBank.write`, C17 `Fasta` writer)
+  (1, "for", "v27.Scan()"),   -- PER RECORD, in input order:
+  (2, "assign", "v30 := v27.Value()"),   -- the record
+  (2, "assign", "v31 := v11(v30)"),   -- per-record step — regenerated as a function (Gen/CliInsert.lean) and proved equal to the model (Bridge/CliInsert.lean, C15)
+  (2, "assign", "v32 := make([]int, len(v31))"),   -- per-record step — regenerated as a function (Gen/CliInsert.lean) and proved equal to the model (Bridge/CliInsert.lean, C15)
+  (2, "range", "v33, v34 := range v31"),   -- per-record step — regenerated as a function (Gen/CliInsert.lean) and proved equal to the model (Bridge/CliInsert.lean, C15)
+  (3, "assign", "v32[v33] = v34.Head()"),   -- per-record step — regenerated as a function (Gen/CliInsert.lean) and proved equal to the model (Bridge/CliInsert.lean, C15)
+  (2, "call", "sort.Sort(sort.Reverse(sort.IntSlice(v32)))"),   -- per-record step — regenerated as a function (Gen/CliInsert.lean) and proved equal to the model (Bridge/CliInsert.lean, C15)
+  (2, "range", "_, v35 := range v13"),   -- per-record step — regenerated as a function (Gen/CliInsert.lean) and proved equal to the model (Bridge/CliInsert.lean, C15)
+  (3, "assign", "v36 := gts.Sequence(gts.Copy(v30))"),   -- per-record step — regenerated as a function (Gen/CliInsert.lean) and proved equal to the model (Bridge/CliInsert.lean, C15)
+  (3, "range", "_, v37 := range v32"),   -- per-record step — regenerated as a function (Gen/CliInsert.lean) and proved equal to the model (Bridge/CliInsert.lean, C15)
+  (4, "assign", "v36 = v23(v36, v37, v35)"),   -- per-record step — regenerated as a function (Gen/CliInsert.lean) and proved equal to the model (Bridge/CliInsert.lean, C15)
+  (3, "if", "_, v38 := v29.WriteSeq(v36); v38 != nil"),   -- WRITE the record; a write error …
+  (4, "return", "a0.Raise(v38)"),   -- … ends the command with that error (no `Commit`)
+  (3, "if", "v39 := v28.Flush(); v39 != nil"),   -- flush (the bytes reach the tee); an error …
+  (4, "return", "a0.Raise(v39)"),   -- … ends the command with that error (no `Commit`)
+  (1, "if", "v40 := v27.Err(); v40 != nil"),   -- a scan error (a malformed record: C07) after the records in front of it were handled …
+  (2, "return", "a0.Raise(fmt.Errorf(\"encountered error in scanner: %v\", v40))"),   -- … fails the command (exit 1, no `Commit`: the cache entry is removed)
+  (1, "call", "v21.Commit()"),   -- frame: LAST statement in front of `return nil`: the run is committed (C14 `commit_only_sets_flag`, `commit_last`)
+  (1, "return", "nil")   -- success
+]
+
+/-- cmd/gts/insert.go: every function, method and function literal, in source order -/
+def file_insert : List (String × List Line) := [
+  ("init", fn_insert_init),
+  ("insertFunc", fn_insert_insertFunc)
+]
+
+/-- cmd/gts/insert.go: its top-level declarations in source order -/
+def decls_insert : List String := ["init", "insertFunc"]
+
+/-- cmd/gts/insert.go: the types it declares (a struct field by field / another type as `= T`) -/
+def types_insert : List (String × List String) := []
+
+/-- the library pipeline of `insert` (what it is: Gts/Gen/CmdFacts.lean) -/
+def pipeline_insert : List (String × List String) := [
+  ("gts.AsLocator()", []),
+  ("gts.Sequence", []),
+  ("gts.New()", ["switch", "case"]),
+  ("seqio.NewAutoScanner()", ["switch", "default"]),
+  (".Scan()", ["switch", "default", "for:"]),
+  (".Value()", ["switch", "default", "for"]),
+  ("seqio.Detect()", []),
+  ("seqio.ToFileType()", ["if"]),
+  ("gts.Insert", []),
+  ("gts.Embed", ["if"]),
+  (".TryCache()", ["if"]),
+  ("seqio.NewAutoScanner()", []),
+  ("seqio.NewWriter()", []),
+  (".Scan()", ["for:"]),
+  (".Value()", ["for"]),
+  (".Head()", ["for", "range"]),
+  (".Reverse()", ["for"]),
+  ("gts.Sequence()", ["for", "range"]),
+  ("gts.Copy()", ["for", "range"]),
+  (".WriteSeq()", ["for", "range", "if:"]),
+  (".Flush()", ["for", "range", "if:"]),
+  (".Err()", ["if:"]),
+  (".Commit()", [])
+]
+
 /-- cmd/gts/join.go `init` -/
 def fn_join_init : List Line := [
   (0, "func", "()"),   -- `init`
@@ -1054,6 +1501,93 @@ def pipeline_reverse : List (String × List String) := [
   (".Commit()", [])
 ]
 
+/-- cmd/gts/rotate.go `init` -/
+def fn_rotate_init : List Line := [
+  (0, "func", "()"),   -- `init`
+  (1, "call", "flags.Register(\"rotate\", \"shift the coordinates of a circular sequence\", rotateFunc)")   -- which command name runs which function (`registered`)
+]
+
+/-- `gts rotate <locator>` — the record is turned so that the first located region starts it (C15 `Cli.rotate`) -/
+def fn_rotate_rotateFunc : List Line := [
+  (0, "func", "(a0 *flags.Context) error"),   -- the command function
+  (1, "assign", "v0 := newHash()"),   -- frame: the digest `TryCache` hashes the input and the payload with (C14)
+  (1, "assign", "v1, v2 := flags.Flags()"),   -- frame: the positional / optional argument sets (option table: Spec/CliTable.lean)
+  (1, "assign", "v3 := v1.String(\"locator\", \"a locator string ([modifier|selector|point|range][@modifier])\")"),   -- positional: the locator string (C08 `AsLocator`)
+  (1, "assign", "v4 := new(string)"),   -- frame: the primary input path …
+  (1, "assign", "*v4 = \"-\""),   -- frame: … is `-` (stdin) …
+  (1, "if", "cmd.IsTerminal(os.Stdin.Fd())"),   -- frame: … unless stdin is a terminal:
+  (2, "assign", "v4 = v1.String(\"seqin\", \"input sequence file (may be omitted if standard input is provided)\")"),   -- frame: then a positional `seqin` is declared
+  (1, "assign", "v5 := v2.Switch(0, \"no-cache\", \"do not use or create cache\")"),   -- frame: `--no-cache` (C14 `Run.nocache`)
+  (1, "assign", "v6 := v2.String('F', \"format\", \"\", \"output file format (defaults to same as input)\")"),   -- frame: `-F` (C17 `cli_writers`: overrides the detected file type)
+  (1, "assign", "v7 := v2.String('o', \"output\", \"-\", \"output sequence file (specifying `-` will force standard output)\")"),   -- frame: `-o` (C14 `Run.toFile`; C17 `cli_writers`: the file type is detected from it)
+  (1, "if", "v8 := a0.Parse(v1, v2); v8 != nil"),   -- frame: the command line is parsed; a usage error …
+  (2, "return", "v8"),   -- … is returned as it is
+  (1, "assign", "v9, v10 := gts.AsLocator(*v3)"),   -- `gts.AsLocator` (C08 `asLocator_eq`): a parameter `locate` of the regenerated step; an invalid locator fails the command before the cache is touched
+  (1, "if", "v10 != nil"),   -- an error …
+  (2, "return", "a0.Raise(v10)"),   -- … ends the command with that error (no `Commit`)
+  (1, "assign", "v11, v10 := newIODelegate(*v4, *v7)"),   -- frame: the I/O delegate over (input path, output path) (C14 `CacheProto.step`: `newIODelegate`)
+  (1, "if", "v10 != nil"),   -- an error …
+  (2, "return", "a0.Raise(v10)"),   -- … ends the command with that error (no `Commit`)
+  (1, "defer", "v11.Close()"),   -- frame: `defer d.Close()` — finalises the cache entry, removes it unless committed (C14 `close_removes_unless_committed`)
+  (1, "assign", "v12 := seqio.Detect(*v7)"),   -- frame: output file type from the `-o` path (C17 `cli_writers`)
+  (1, "if", "*v6 != \"\""),   -- frame: `-F` given:
+  (2, "assign", "v12 = seqio.ToFileType(*v6)"),   -- frame: … the file type is the named format (C17 `cli_writers`)
+  (1, "if", "!*v5"),   -- frame: unless `--no-cache`:
+  (2, "assign", "v13 := encodePayload([]tuple{{\"command\", strings.Join(a0.Name, \"-\")}, {\"version\", gts.Version.String()}, {\"locator\", *v3}, {\"filetype\", v12}})"),   -- the cache key: command name, version and EVERY option that changes the output (C14 `payload_complete`, Spec/CliTable.lean)
+  (2, "assign", "v14, v15 := v11.TryCache(v0, v13)"),   -- frame: C14 `CacheProto.step`: hit → the entry is copied to the output; miss → the tee is armed
+  (2, "if", "v14 || v15 != nil"),   -- frame: a hit (or an I/O error) …
+  (3, "return", "a0.Raise(v15)"),   -- … ends the command: `Raise(nil)` is nil for a hit (the entry was replayed), the error otherwise
+  (1, "assign", "v16 := seqio.NewAutoScanner(v11)"),   -- READER: the records of the primary input, format detected per stream (C17 `Auto.scanAll`, C07 / C01 the GenBank reader)
+  (1, "assign", "v17 := bufio.NewWriter(v11)"),   -- WRITER: buffered, onto the delegate (tee: output and cache entry)
+  (1, "assign", "v18 := seqio.NewWriter(v17, v12)"),   -- WRITER: `seqio.NewWriter(buffer, filetype)` (C17 `cli_writers`; C01 `GenBank.write`, C17 `Fasta` writer)
+  (1, "for", "v16.Scan()"),   -- PER RECORD, in input order:
+  (2, "assign", "v19 := v16.Value()"),   -- the record
+  (2, "assign", "v20 := v9(v19)"),   -- per-record step — regenerated as a function (Gen/CliRotate.lean) and proved equal to the model (Bridge/CliRotate.lean, C15)
+  (2, "if", "len(v20) > 0"),   -- per-record step — regenerated as a function (Gen/CliRotate.lean) and proved equal to the model (Bridge/CliRotate.lean, C15)
+  (3, "assign", "v19 = gts.Rotate(v19, -v20[0].Head())"),   -- per-record step — regenerated as a function (Gen/CliRotate.lean) and proved equal to the model (Bridge/CliRotate.lean, C15)
+  (2, "assign", "v19 = gts.WithTopology(v19, gts.Circular)"),   -- per-record step — regenerated as a function (Gen/CliRotate.lean) and proved equal to the model (Bridge/CliRotate.lean, C15)
+  (2, "if", "_, v21 := v18.WriteSeq(v19); v21 != nil"),   -- WRITE the record; a write error …
+  (3, "return", "a0.Raise(v21)"),   -- … ends the command with that error (no `Commit`)
+  (2, "if", "v22 := v17.Flush(); v22 != nil"),   -- flush (the bytes reach the tee); an error …
+  (3, "return", "a0.Raise(v22)"),   -- … ends the command with that error (no `Commit`)
+  (1, "if", "v23 := v16.Err(); v23 != nil"),   -- a scan error (a malformed record: C07) after the records in front of it were handled …
+  (2, "return", "a0.Raise(fmt.Errorf(\"encountered error in scanner: %v\", v23))"),   -- … fails the command (exit 1, no `Commit`: the cache entry is removed)
+  (1, "call", "v11.Commit()"),   -- frame: LAST statement in front of `return nil`: the run is committed (C14 `commit_only_sets_flag`, `commit_last`)
+  (1, "return", "nil")   -- success
+]
+
+/-- cmd/gts/rotate.go: every function, method and function literal, in source order -/
+def file_rotate : List (String × List Line) := [
+  ("init", fn_rotate_init),
+  ("rotateFunc", fn_rotate_rotateFunc)
+]
+
+/-- cmd/gts/rotate.go: its top-level declarations in source order -/
+def decls_rotate : List String := ["init", "rotateFunc"]
+
+/-- cmd/gts/rotate.go: the types it declares (a struct field by field / another type as `= T`) -/
+def types_rotate : List (String × List String) := []
+
+/-- the library pipeline of `rotate` (what it is: Gts/Gen/CmdFacts.lean) -/
+def pipeline_rotate : List (String × List String) := [
+  ("gts.AsLocator()", []),
+  ("seqio.Detect()", []),
+  ("seqio.ToFileType()", ["if"]),
+  (".TryCache()", ["if"]),
+  ("seqio.NewAutoScanner()", []),
+  ("seqio.NewWriter()", []),
+  (".Scan()", ["for:"]),
+  (".Value()", ["for"]),
+  ("gts.Rotate()", ["for", "if"]),
+  (".Head()", ["for", "if"]),
+  ("gts.WithTopology()", ["for"]),
+  ("gts.Circular", ["for"]),
+  (".WriteSeq()", ["for", "if:"]),
+  (".Flush()", ["for", "if:"]),
+  (".Err()", ["if:"]),
+  (".Commit()", [])
+]
+
 /-- cmd/gts/search.go `init` -/
 def fn_search_init : List Line := [
   (0, "func", "()"),   -- `init`
@@ -1427,6 +1961,150 @@ def pipeline_sort : List (String × List String) := [
   (".Commit()", [])
 ]
 
+/-- cmd/gts/split.go `init` -/
+def fn_split_init : List Line := [
+  (0, "func", "()"),   -- `init`
+  (1, "call", "flags.Register(\"split\", \"split the sequence at the provided locations\", splitFunc)")   -- which command name runs which function (`registered`)
+]
+
+/-- `gts split <locator>` — the record is cut at the located sites (C15 `Cli.split`) -/
+def fn_split_splitFunc : List Line := [
+  (0, "func", "(a0 *flags.Context) error"),   -- the command function
+  (1, "assign", "v0 := newHash()"),   -- frame: the digest `TryCache` hashes the input and the payload with (C14)
+  (1, "assign", "v1, v2 := flags.Flags()"),   -- frame: the positional / optional argument sets (option table: Spec/CliTable.lean)
+  (1, "assign", "v3 := v1.String(\"locator\", \"a locator string ([modifier|selector|point|range][@modifier])\")"),   -- positional: the locator string (C08 `AsLocator`)
+  (1, "assign", "v4 := new(string)"),   -- frame: the primary input path …
+  (1, "assign", "*v4 = \"-\""),   -- frame: … is `-` (stdin) …
+  (1, "if", "cmd.IsTerminal(os.Stdin.Fd())"),   -- frame: … unless stdin is a terminal:
+  (2, "assign", "v4 = v1.String(\"seqin\", \"input sequence file (may be omitted if standard input is provided)\")"),   -- frame: then a positional `seqin` is declared
+  (1, "assign", "v5 := v2.Switch(0, \"no-cache\", \"do not use or create cache\")"),   -- frame: `--no-cache` (C14 `Run.nocache`)
+  (1, "assign", "v6 := v2.String('o', \"output\", \"-\", \"output sequence file (specifying `-` will force standard output)\")"),   -- frame: `-o` (C14 `Run.toFile`; C17 `cli_writers`: the file type is detected from it)
+  (1, "assign", "v7 := v2.String('F', \"format\", \"\", \"output file format (defaults to same as input)\")"),   -- frame: `-F` (C17 `cli_writers`: overrides the detected file type)
+  (1, "if", "v8 := a0.Parse(v1, v2); v8 != nil"),   -- frame: the command line is parsed; a usage error …
+  (2, "return", "v8"),   -- … is returned as it is
+  (1, "assign", "v9, v10 := gts.AsLocator(*v3)"),   -- `gts.AsLocator` (C08 `asLocator_eq`): a parameter `locate` of the regenerated step; an invalid locator fails the command before the cache is touched
+  (1, "if", "v10 != nil"),   -- an error …
+  (2, "return", "a0.Raise(v10)"),   -- … ends the command with that error (no `Commit`)
+  (1, "assign", "v11, v10 := newIODelegate(*v4, *v6)"),   -- frame: the I/O delegate over (input path, output path) (C14 `CacheProto.step`: `newIODelegate`)
+  (1, "if", "v10 != nil"),   -- an error …
+  (2, "return", "a0.Raise(v10)"),   -- … ends the command with that error (no `Commit`)
+  (1, "defer", "v11.Close()"),   -- frame: `defer d.Close()` — finalises the cache entry, removes it unless committed (C14 `close_removes_unless_committed`)
+  (1, "assign", "v12 := seqio.Detect(*v6)"),   -- frame: output file type from the `-o` path (C17 `cli_writers`)
+  (1, "if", "*v7 != \"\""),   -- frame: `-F` given:
+  (2, "assign", "v12 = seqio.ToFileType(*v7)"),   -- frame: … the file type is the named format (C17 `cli_writers`)
+  (1, "if", "!*v5"),   -- frame: unless `--no-cache`:
+  (2, "assign", "v13 := encodePayload([]tuple{{\"command\", strings.Join(a0.Name, \"-\")}, {\"version\", gts.Version.String()}, {\"locator\", *v3}, {\"filetype\", v12}})"),   -- the cache key: command name, version and EVERY option that changes the output (C14 `payload_complete`, Spec/CliTable.lean)
+  (2, "assign", "v14, v15 := v11.TryCache(v0, v13)"),   -- frame: C14 `CacheProto.step`: hit → the entry is copied to the output; miss → the tee is armed
+  (2, "if", "v14 || v15 != nil"),   -- frame: a hit (or an I/O error) …
+  (3, "return", "a0.Raise(v15)"),   -- … ends the command: `Raise(nil)` is nil for a hit (the entry was replayed), the error otherwise
+  (1, "assign", "v16 := seqio.NewAutoScanner(v11)"),   -- READER: the records of the primary input, format detected per stream (C17 `Auto.scanAll`, C07 / C01 the GenBank reader)
+  (1, "assign", "v17 := bufio.NewWriter(v11)"),   -- WRITER: buffered, onto the delegate (tee: output and cache entry)
+  (1, "assign", "v18 := seqio.NewWriter(v17, v12)"),   -- WRITER: `seqio.NewWriter(buffer, filetype)` (C17 `cli_writers`; C01 `GenBank.write`, C17 `Fasta` writer)
+  (1, "for", "v16.Scan()"),   -- PER RECORD, in input order:
+  (2, "assign", "v19 := v16.Value()"),   -- the record
+  (2, "assign", "v20 := v9(v19)"),   -- per-record step — regenerated as a function (Gen/CliSplit.lean) and proved equal to the model (Bridge/CliSplit.lean, C15)
+  (2, "assign", "v21 := gts.Linear"),   -- per-record step — regenerated as a function (Gen/CliSplit.lean) and proved equal to the model (Bridge/CliSplit.lean, C15)
+  (2, "typeswitch", "v22 := v19.(type)"),   -- per-record step — regenerated as a function (Gen/CliSplit.lean) and proved equal to the model (Bridge/CliSplit.lean, C15)
+  (3, "case", "seqio.GenBank"),   -- per-record step — regenerated as a function (Gen/CliSplit.lean) and proved equal to the model (Bridge/CliSplit.lean, C15)
+  (4, "assign", "v21 = v22.Fields.Topology"),   -- per-record step — regenerated as a function (Gen/CliSplit.lean) and proved equal to the model (Bridge/CliSplit.lean, C15)
+  (2, "switch", ""),   -- per-record step — regenerated as a function (Gen/CliSplit.lean) and proved equal to the model (Bridge/CliSplit.lean, C15)
+  (3, "case", "len(v20) == 0"),   -- per-record step — regenerated as a function (Gen/CliSplit.lean) and proved equal to the model (Bridge/CliSplit.lean, C15)
+  (4, "if", "_, v23 := v18.WriteSeq(v19); v23 != nil"),   -- WRITE the record; a write error …
+  (5, "return", "a0.Raise(v23)"),   -- … ends the command with that error (no `Commit`)
+  (3, "case", "len(v20) == 1 && v21 == gts.Circular"),   -- per-record step — regenerated as a function (Gen/CliSplit.lean) and proved equal to the model (Bridge/CliSplit.lean, C15)
+  (4, "assign", "v19 = gts.Rotate(v19, -v20.Head())"),   -- per-record step — regenerated as a function (Gen/CliSplit.lean) and proved equal to the model (Bridge/CliSplit.lean, C15)
+  (4, "assign", "v19 = gts.WithTopology(v19, gts.Linear)"),   -- per-record step — regenerated as a function (Gen/CliSplit.lean) and proved equal to the model (Bridge/CliSplit.lean, C15)
+  (4, "if", "_, v24 := v18.WriteSeq(v19); v24 != nil"),   -- WRITE the record; a write error …
+  (5, "return", "a0.Raise(v24)"),   -- … ends the command with that error (no `Commit`)
+  (3, "default", ""),   -- per-record step — regenerated as a function (Gen/CliSplit.lean) and proved equal to the model (Bridge/CliSplit.lean, C15)
+  (4, "assign", "v25 := make(map[int]interface{})"),   -- per-record step — regenerated as a function (Gen/CliSplit.lean) and proved equal to the model (Bridge/CliSplit.lean, C15)
+  (4, "range", "_, v26 := range v20"),   -- per-record step — regenerated as a function (Gen/CliSplit.lean) and proved equal to the model (Bridge/CliSplit.lean, C15)
+  (5, "assign", "v27, v28 := v26.Head(), v26.Tail()"),   -- per-record step — regenerated as a function (Gen/CliSplit.lean) and proved equal to the model (Bridge/CliSplit.lean, C15)
+  (5, "if", "v28 < v27"),   -- per-record step — regenerated as a function (Gen/CliSplit.lean) and proved equal to the model (Bridge/CliSplit.lean, C15)
+  (6, "assign", "v27 = v28"),   -- per-record step — regenerated as a function (Gen/CliSplit.lean) and proved equal to the model (Bridge/CliSplit.lean, C15)
+  (5, "assign", "v25[v27] = nil"),   -- per-record step — regenerated as a function (Gen/CliSplit.lean) and proved equal to the model (Bridge/CliSplit.lean, C15)
+  (4, "assign", "v29 := make([]int, len(v25))"),   -- per-record step — regenerated as a function (Gen/CliSplit.lean) and proved equal to the model (Bridge/CliSplit.lean, C15)
+  (4, "assign", "v30 := 0"),   -- per-record step — regenerated as a function (Gen/CliSplit.lean) and proved equal to the model (Bridge/CliSplit.lean, C15)
+  (4, "range", "v31 := range v25"),   -- per-record step — regenerated as a function (Gen/CliSplit.lean) and proved equal to the model (Bridge/CliSplit.lean, C15)
+  (5, "assign", "v29[v30] = v31"),   -- per-record step — regenerated as a function (Gen/CliSplit.lean) and proved equal to the model (Bridge/CliSplit.lean, C15)
+  (5, "assign", "v30++"),   -- per-record step — regenerated as a function (Gen/CliSplit.lean) and proved equal to the model (Bridge/CliSplit.lean, C15)
+  (4, "call", "sort.Ints(v29)"),   -- per-record step — regenerated as a function (Gen/CliSplit.lean) and proved equal to the model (Bridge/CliSplit.lean, C15)
+  (4, "if", "v21 == gts.Circular && len(v29) == 1"),   -- per-record step — regenerated as a function (Gen/CliSplit.lean) and proved equal to the model (Bridge/CliSplit.lean, C15)
+  (5, "assign", "v19 = gts.Rotate(v19, -v29[0])"),   -- per-record step — regenerated as a function (Gen/CliSplit.lean) and proved equal to the model (Bridge/CliSplit.lean, C15)
+  (5, "assign", "v19 = gts.WithTopology(v19, gts.Linear)"),   -- per-record step — regenerated as a function (Gen/CliSplit.lean) and proved equal to the model (Bridge/CliSplit.lean, C15)
+  (5, "if", "_, v32 := v18.WriteSeq(v19); v32 != nil"),   -- WRITE the record; a write error …
+  (6, "return", "a0.Raise(v32)"),   -- … ends the command with that error (no `Commit`)
+  (5, "branch", "break"),   -- per-record step — regenerated as a function (Gen/CliSplit.lean) and proved equal to the model (Bridge/CliSplit.lean, C15)
+  (4, "assign", "v33 := make([]int, len(v29) + 2)"),   -- per-record step — regenerated as a function (Gen/CliSplit.lean) and proved equal to the model (Bridge/CliSplit.lean, C15)
+  (4, "if", "v21 == gts.Circular"),   -- per-record step — regenerated as a function (Gen/CliSplit.lean) and proved equal to the model (Bridge/CliSplit.lean, C15)
+  (5, "assign", "v33[0] = v29[len(v29) - 1]"),   -- per-record step — regenerated as a function (Gen/CliSplit.lean) and proved equal to the model (Bridge/CliSplit.lean, C15)
+  (5, "assign", "v33 = v33[:len(v33) - 1]"),   -- per-record step — regenerated as a function (Gen/CliSplit.lean) and proved equal to the model (Bridge/CliSplit.lean, C15)
+  (4, "else", ""),   -- per-record step — regenerated as a function (Gen/CliSplit.lean) and proved equal to the model (Bridge/CliSplit.lean, C15)
+  (5, "assign", "v33[len(v33) - 1] = gts.Len(v19)"),   -- per-record step — regenerated as a function (Gen/CliSplit.lean) and proved equal to the model (Bridge/CliSplit.lean, C15)
+  (4, "range", "v34, v35 := range v29"),   -- per-record step — regenerated as a function (Gen/CliSplit.lean) and proved equal to the model (Bridge/CliSplit.lean, C15)
+  (5, "assign", "v33[v34 + 1] = v35"),   -- per-record step — regenerated as a function (Gen/CliSplit.lean) and proved equal to the model (Bridge/CliSplit.lean, C15)
+  (4, "range", "v36, v37 := range v33[1:]"),   -- per-record step — regenerated as a function (Gen/CliSplit.lean) and proved equal to the model (Bridge/CliSplit.lean, C15)
+  (5, "assign", "v38 := v33[v36]"),   -- per-record step — regenerated as a function (Gen/CliSplit.lean) and proved equal to the model (Bridge/CliSplit.lean, C15)
+  (5, "assign", "v39 := gts.Slice(v19, v38, v37)"),   -- per-record step — regenerated as a function (Gen/CliSplit.lean) and proved equal to the model (Bridge/CliSplit.lean, C15)
+  (5, "assign", "v39 = gts.WithTopology(v39, gts.Linear)"),   -- per-record step — regenerated as a function (Gen/CliSplit.lean) and proved equal to the model (Bridge/CliSplit.lean, C15)
+  (5, "if", "_, v40 := v18.WriteSeq(v39); v40 != nil"),   -- WRITE the record; a write error …
+  (6, "return", "a0.Raise(v40)"),   -- … ends the command with that error (no `Commit`)
+  (2, "if", "v41 := v17.Flush(); v41 != nil"),   -- flush (the bytes reach the tee); an error …
+  (3, "return", "a0.Raise(v41)"),   -- … ends the command with that error (no `Commit`)
+  (1, "if", "v42 := v16.Err(); v42 != nil"),   -- a scan error (a malformed record: C07) after the records in front of it were handled …
+  (2, "return", "a0.Raise(fmt.Errorf(\"encountered error in scanner: %v\", v42))"),   -- … fails the command (exit 1, no `Commit`: the cache entry is removed)
+  (1, "call", "v11.Commit()"),   -- frame: LAST statement in front of `return nil`: the run is committed (C14 `commit_only_sets_flag`, `commit_last`)
+  (1, "return", "nil")   -- success
+]
+
+/-- cmd/gts/split.go: every function, method and function literal, in source order -/
+def file_split : List (String × List Line) := [
+  ("init", fn_split_init),
+  ("splitFunc", fn_split_splitFunc)
+]
+
+/-- cmd/gts/split.go: its top-level declarations in source order -/
+def decls_split : List String := ["init", "splitFunc"]
+
+/-- cmd/gts/split.go: the types it declares (a struct field by field / another type as `= T`) -/
+def types_split : List (String × List String) := []
+
+/-- the library pipeline of `split` (what it is: Gts/Gen/CmdFacts.lean) -/
+def pipeline_split : List (String × List String) := [
+  ("gts.AsLocator()", []),
+  ("seqio.Detect()", []),
+  ("seqio.ToFileType()", ["if"]),
+  (".TryCache()", ["if"]),
+  ("seqio.NewAutoScanner()", []),
+  ("seqio.NewWriter()", []),
+  (".Scan()", ["for:"]),
+  (".Value()", ["for"]),
+  ("gts.Linear", ["for"]),
+  (".WriteSeq()", ["for", "switch", "case", "if:"]),
+  ("gts.Circular", ["for", "switch"]),
+  ("gts.Rotate()", ["for", "switch", "case"]),
+  (".Head()", ["for", "switch", "case"]),
+  ("gts.WithTopology()", ["for", "switch", "case"]),
+  ("gts.Linear", ["for", "switch", "case"]),
+  (".WriteSeq()", ["for", "switch", "case", "if:"]),
+  (".Head()", ["for", "switch", "default", "range"]),
+  (".Tail()", ["for", "switch", "default", "range"]),
+  ("gts.Circular", ["for", "switch", "default", "if:"]),
+  ("gts.Rotate()", ["for", "switch", "default", "if"]),
+  ("gts.WithTopology()", ["for", "switch", "default", "if"]),
+  ("gts.Linear", ["for", "switch", "default", "if"]),
+  (".WriteSeq()", ["for", "switch", "default", "if", "if:"]),
+  ("gts.Circular", ["for", "switch", "default", "if:"]),
+  ("gts.Len()", ["for", "switch", "default", "else"]),
+  ("gts.Slice()", ["for", "switch", "default", "range"]),
+  ("gts.WithTopology()", ["for", "switch", "default", "range"]),
+  ("gts.Linear", ["for", "switch", "default", "range"]),
+  (".WriteSeq()", ["for", "switch", "default", "range", "if:"]),
+  (".Flush()", ["for", "if:"]),
+  (".Err()", ["if:"]),
+  (".Commit()", [])
+]
+
 /-- cmd/gts/summary.go `init` -/
 def fn_summary_init : List Line := [
   (0, "func", "()"),   -- `init`
@@ -1587,182 +2265,21 @@ def pipeline_summary : List (String × List String) := [
   (".Commit()", [])
 ]
 
-/-- the library pipeline of the multi-site command `delete` (its per-record step is regenerated as a function by
-go2lean/gcli_cmds.go, C15; here: the frame around it) -/
-def pipeline_delete : List (String × List String) := [
-  ("gts.AsLocator()", []),
-  ("seqio.Detect()", []),
-  ("seqio.ToFileType()", ["if"]),
-  ("gts.Delete", []),
-  ("gts.Erase", ["if"]),
-  (".TryCache()", ["if"]),
-  ("seqio.NewAutoScanner()", []),
-  ("seqio.NewWriter()", []),
-  (".Scan()", ["for:"]),
-  (".Value()", ["for"]),
-  ("gts.Minimize()", ["for"]),
-  ("gts.BySegment()", ["for"]),
-  (".Head()", ["for", "range"]),
-  (".Len()", ["for", "range"]),
-  (".WriteSeq()", ["for", "if:"]),
-  (".Flush()", ["for", "if:"]),
-  (".Err()", ["if:"]),
-  (".Commit()", [])
-]
-
-/-- the library pipeline of the multi-site command `extract` (its per-record step is regenerated as a function by
-go2lean/gcli_cmds.go, C15; here: the frame around it) -/
-def pipeline_extract : List (String × List String) := [
-  ("seqio.Detect()", []),
-  ("seqio.ToFileType()", ["if"]),
-  ("gts.Locator", []),
-  ("gts.AsLocator()", ["range"]),
-  (".TryCache()", ["if"]),
-  ("seqio.NewAutoScanner()", []),
-  ("seqio.NewWriter()", []),
-  (".Scan()", ["for:"]),
-  (".Value()", ["for"]),
-  ("gts.Region", ["for"]),
-  ("gts.InvertLinear()", ["for", "if"]),
-  ("gts.Regions()", ["for", "if"]),
-  ("gts.Len()", ["for", "if"]),
-  (".Len()", ["for", "range", "if:"]),
-  ("gts.Len()", ["for", "range", "if:"]),
-  (".Locate()", ["for", "range", "if"]),
-  (".WriteSeq()", ["for", "range", "if", "if:"]),
-  (".Flush()", ["for", "range", "if", "if:"]),
-  (".Err()", ["if:"]),
-  (".Commit()", [])
-]
-
-/-- the library pipeline of the multi-site command `infix` (its per-record step is regenerated as a function by
-go2lean/gcli_cmds.go, C15; here: the frame around it) -/
-def pipeline_infix : List (String × List String) := [
-  ("gts.AsLocator()", []),
-  ("gts.Sequence", []),
-  ("seqio.NewAutoScanner()", []),
-  (".Scan()", ["for:"]),
-  (".Value()", ["for"]),
-  ("seqio.Detect()", []),
-  ("seqio.ToFileType()", ["if"]),
-  ("gts.Insert", []),
-  ("gts.Embed", ["if"]),
-  (".TryCache()", ["if"]),
-  ("seqio.NewAutoScanner()", []),
-  ("seqio.NewWriter()", []),
-  (".Scan()", ["for:"]),
-  (".Value()", ["for"]),
-  (".Head()", ["for", "range", "range"]),
-  (".Reverse()", ["for", "range"]),
-  ("gts.Sequence()", ["for", "range"]),
-  ("gts.Copy()", ["for", "range"]),
-  (".WriteSeq()", ["for", "range", "if:"]),
-  (".Flush()", ["for", "range", "if:"]),
-  (".Err()", ["if:"]),
-  (".Commit()", [])
-]
-
-/-- the library pipeline of the multi-site command `insert` (its per-record step is regenerated as a function by
-go2lean/gcli_cmds.go, C15; here: the frame around it) -/
-def pipeline_insert : List (String × List String) := [
-  ("gts.AsLocator()", []),
-  ("gts.Sequence", []),
-  ("gts.New()", ["switch", "case"]),
-  ("seqio.NewAutoScanner()", ["switch", "default"]),
-  (".Scan()", ["switch", "default", "for:"]),
-  (".Value()", ["switch", "default", "for"]),
-  ("seqio.Detect()", []),
-  ("seqio.ToFileType()", ["if"]),
-  ("gts.Insert", []),
-  ("gts.Embed", ["if"]),
-  (".TryCache()", ["if"]),
-  ("seqio.NewAutoScanner()", []),
-  ("seqio.NewWriter()", []),
-  (".Scan()", ["for:"]),
-  (".Value()", ["for"]),
-  (".Head()", ["for", "range"]),
-  (".Reverse()", ["for"]),
-  ("gts.Sequence()", ["for", "range"]),
-  ("gts.Copy()", ["for", "range"]),
-  (".WriteSeq()", ["for", "range", "if:"]),
-  (".Flush()", ["for", "range", "if:"]),
-  (".Err()", ["if:"]),
-  (".Commit()", [])
-]
-
-/-- the library pipeline of the multi-site command `rotate` (its per-record step is regenerated as a function by
-go2lean/gcli_cmds.go, C15; here: the frame around it) -/
-def pipeline_rotate : List (String × List String) := [
-  ("gts.AsLocator()", []),
-  ("seqio.Detect()", []),
-  ("seqio.ToFileType()", ["if"]),
-  (".TryCache()", ["if"]),
-  ("seqio.NewAutoScanner()", []),
-  ("seqio.NewWriter()", []),
-  (".Scan()", ["for:"]),
-  (".Value()", ["for"]),
-  ("gts.Rotate()", ["for", "if"]),
-  (".Head()", ["for", "if"]),
-  ("gts.WithTopology()", ["for"]),
-  ("gts.Circular", ["for"]),
-  (".WriteSeq()", ["for", "if:"]),
-  (".Flush()", ["for", "if:"]),
-  (".Err()", ["if:"]),
-  (".Commit()", [])
-]
-
-/-- the library pipeline of the multi-site command `split` (its per-record step is regenerated as a function by
-go2lean/gcli_cmds.go, C15; here: the frame around it) -/
-def pipeline_split : List (String × List String) := [
-  ("gts.AsLocator()", []),
-  ("seqio.Detect()", []),
-  ("seqio.ToFileType()", ["if"]),
-  (".TryCache()", ["if"]),
-  ("seqio.NewAutoScanner()", []),
-  ("seqio.NewWriter()", []),
-  (".Scan()", ["for:"]),
-  (".Value()", ["for"]),
-  ("gts.Linear", ["for"]),
-  (".WriteSeq()", ["for", "switch", "case", "if:"]),
-  ("gts.Circular", ["for", "switch"]),
-  ("gts.Rotate()", ["for", "switch", "case"]),
-  (".Head()", ["for", "switch", "case"]),
-  ("gts.WithTopology()", ["for", "switch", "case"]),
-  ("gts.Linear", ["for", "switch", "case"]),
-  (".WriteSeq()", ["for", "switch", "case", "if:"]),
-  (".Head()", ["for", "switch", "default", "range"]),
-  (".Tail()", ["for", "switch", "default", "range"]),
-  ("gts.Circular", ["for", "switch", "default", "if:"]),
-  ("gts.Rotate()", ["for", "switch", "default", "if"]),
-  ("gts.WithTopology()", ["for", "switch", "default", "if"]),
-  ("gts.Linear", ["for", "switch", "default", "if"]),
-  (".WriteSeq()", ["for", "switch", "default", "if", "if:"]),
-  ("gts.Circular", ["for", "switch", "default", "if:"]),
-  ("gts.Len()", ["for", "switch", "default", "else"]),
-  ("gts.Slice()", ["for", "switch", "default", "range"]),
-  ("gts.WithTopology()", ["for", "switch", "default", "range"]),
-  ("gts.Linear", ["for", "switch", "default", "range"]),
-  (".WriteSeq()", ["for", "switch", "default", "range", "if:"]),
-  (".Flush()", ["for", "if:"]),
-  (".Err()", ["if:"]),
-  (".Commit()", [])
-]
-
 /-- the inventory of cmd/gts: (file, how it is tied — `facts`: every function in normal form here, declarations in
-`decls_<file>`; `gcli`: the per-record step regenerated by go2lean/gcli_cmds.go; `iodelegate`: go2lean/iodelegate.go;
-`untied`; `new`: a file the generator does not know —, for a file that is not `facts` its top-level declarations in
-source order) -/
+`decls_<file>`; `gcli`: the same AND the per-record step regenerated as a function by go2lean/gcli_cmds.go; `iodelegate`: go2lean/iodelegate.go;
+`untied`; `new`: a file the generator does not know —, for a file that is neither its top-level declarations
+in source order) -/
 def files : List (String × String × List String) := [
   ("annotate.go", "facts", []),
   ("cache.go", "untied", ["init", "cacheListFunc", "cachePathFunc", "cachePurgeFunc"]),
   ("clear.go", "facts", []),
   ("complement.go", "facts", []),
   ("define.go", "facts", []),
-  ("delete.go", "gcli", ["init", "deleteFunc"]),
-  ("extract.go", "gcli", ["init", "containsRegion", "extractFunc"]),
+  ("delete.go", "gcli", []),
+  ("extract.go", "gcli", []),
   ("hash.go", "untied", ["newHash", "encodeToString"]),
-  ("infix.go", "gcli", ["init", "infixFunc"]),
-  ("insert.go", "gcli", ["init", "insertFunc"]),
+  ("infix.go", "gcli", []),
+  ("insert.go", "gcli", []),
   ("io.go", "iodelegate", ["type attachment", "attachment.Read", "attach", "type tuple", "exact", "encodePayload", "gtsCacheDir", "type ioDelegate", "ioDelegate.Commit", "newIODelegate", "ioDelegate.Read", "ioDelegate.Write", "ioDelegate.TryCache", "ioDelegate.Close"]),
   ("join.go", "facts", []),
   ("length.go", "facts", []),
@@ -1771,11 +2288,11 @@ def files : List (String × String × List String) := [
   ("query.go", "facts", []),
   ("repair.go", "facts", []),
   ("reverse.go", "facts", []),
-  ("rotate.go", "gcli", ["init", "rotateFunc"]),
+  ("rotate.go", "gcli", []),
   ("search.go", "facts", []),
   ("select.go", "facts", []),
   ("sort.go", "facts", []),
-  ("split.go", "gcli", ["init", "splitFunc"]),
+  ("split.go", "gcli", []),
   ("summary.go", "facts", [])
 ]
 
